@@ -6,6 +6,7 @@ import (
 	"os"
 	"path/filepath"
 	"regexp"
+	"runtime"
 	"strconv"
 	"strings"
 	"sync"
@@ -112,13 +113,58 @@ func WorkerMain(t *testing.T, engine string, run RunFunc) {
 	start := time.Now()
 	seen := map[uint64]bool{}
 	minimised := 0
+	// Stall guard. A run that does not come back (a stall of the harness itself:
+	// e.g. a bubble that never settles) must not take the whole batch with it: a
+	// real-time goroutine outside every bubble notices it, keeps the goroutine
+	// dump next to the replay files, counts the run as inconclusive and ends the
+	// worker with what it has. Verdicts are never derived from such a run.
+	var guardMu sync.Mutex
+	var runStarted time.Time
+	var runSeed uint64
+	stallLimit := time.Duration(envInt("DST_STALL_LIMIT_S", 0)) * time.Second
+	if stallLimit == 0 {
+		stallLimit = budget * 8 / 10
+		if stallLimit < 200*time.Second {
+			stallLimit = 200 * time.Second
+		}
+		if stallLimit > 600*time.Second {
+			stallLimit = 600 * time.Second
+		}
+	}
+	go func() {
+		for {
+			time.Sleep(time.Second)
+			guardMu.Lock()
+			rs, sd := runStarted, runSeed
+			if !rs.IsZero() && time.Since(rs) > stallLimit {
+				buf := make([]byte, 8<<20)
+				n := runtime.Stack(buf, true)
+				if replayDir != "" {
+					_ = os.MkdirAll(replayDir, 0o755)
+					_ = os.WriteFile(filepath.Join(replayDir, fmt.Sprintf("stall-%s-%s-%d.txt", prop, scenario, sd)), buf[:n], 0o644)
+				}
+				agg.Runs++
+				agg.Inconclusive[fmt.Sprintf("run did not come back within %s (harness stall)", stallLimit)]++
+				agg.WallS = time.Since(start).Seconds()
+				write()
+				os.Exit(0)
+			}
+			guardMu.Unlock()
+		}
+	}()
 	for ri := 0; ri < maxRuns && time.Since(start) < budget; ri++ {
 		seed := Mix(base, uint64(worker), uint64(ri))
 		if os.Getenv("DST_RAW_SEEDS") != "" {
 			seed = base + uint64(ri)
 		}
 		tape := NewTape(seed)
+		guardMu.Lock()
+		runStarted, runSeed = time.Now(), seed
+		guardMu.Unlock()
 		res := run(t, scenario, tier, tape, dumpDir != "")
+		guardMu.Lock()
+		runStarted = time.Time{}
+		guardMu.Unlock()
 		agg.Runs++
 		if len(agg.FirstSeeds) < 8 {
 			agg.FirstSeeds = append(agg.FirstSeeds, seed)
